@@ -80,7 +80,52 @@ def rip_trace(D, pre, src):
     yield {"op": "rip_trace", "fa": pre, "gnfa": out[0], "rips": out[1], "res": out[2], "src": src}
 
 
+def thompson_line(line):
+    """(G) one (tree, automaton) pair of spec/Thompson.tla replayed into regexp_to_nfa: property clauses as for
+    every re_to_nfa event, plus a binding clause comparing the automaton with the model's, names included"""
+    import json
+    from gambatools.regexp_algorithms import regexp_to_nfa
+    tr = json.loads(line) if isinstance(line, str) else line
+    src = {"kind": "thompson_line", "line": tr}
+    r = c05.from_abs(tr["re"])
+    N, exc = guarded(lambda: regexp_to_nfa(r))
+    ev = {"op": "re_to_nfa", "re": ab.regexp(r), "exc": exc, "src": src}
+    if exc == "none":
+        ev["res"] = ab.nfa(N)
+    yield ev
+    if exc != "none":
+        yield {"op": "sched_replay", "algo": "thompson", "followed": True, "expected": ["ok"], "actual": [exc], "src": src}
+        return
+    m = tr["res"]
+    e = ab.enc(N.epsilon)
+    A = ev["res"]
+    want = {"Q": sorted(m["Q"]), "S": sorted(m["S"]), "T": sorted([t[0], "eps" if t[1] == "eps" else t[1], t[2]] for t in m["T"]),
+            "q0": m["q0"], "F": sorted(m["F"])}
+    got = {"Q": sorted(A["Q"]), "S": sorted(A["S"]), "T": sorted([t[0], "eps" if t[1] == e else t[1], t[2]] for t in A["T"]),
+           "q0": A["q0"], "F": sorted(A["F"])}
+    yield {"op": "sched_replay", "algo": "thompson", "followed": True, "expected": [json.dumps(want, sort_keys=True)],
+           "actual": [json.dumps(got, sort_keys=True)], "src": src}
+
+
+def thompson_tasks(tier, info, parts=4):
+    import os
+    from .. import tlc, common
+    cfg = "Thompson_q.cfg" if tier == "quick" else "Thompson_t.cfg"
+    path = os.path.join(common.outdir(PID, "gen"), cfg.replace(".cfg", ".ndjson"))
+    n, dist, g = tlc.generate_behaviours("Thompson", cfg, path)
+    info[cfg] = n
+    step = (n + parts - 1) // parts
+    return [{"kind": "thompson_replay", "path": path, "lo": i * step, "hi": min(n, (i + 1) * step), "hashseed": i % 3}
+            for i in range(parts) if i * step < n]
+
+
 def drive(task):
+    if task["kind"] == "thompson_replay":
+        with open(task["path"]) as f:
+            for i, ln in enumerate(f):
+                if task["lo"] <= i < task["hi"]:
+                    yield from thompson_line(ln)
+        return
     if task["kind"] == "exh_re":
         for i, r in enumerate(U.all_regexps(task["ops"], c05.LEAVES)):
             if i % task["parts"] == task["part"]:
@@ -101,24 +146,33 @@ def drive(task):
 
 
 def redrive(src):
-    if src["kind"] == "re":
+    if src["kind"] == "thompson_line":
+        yield from thompson_line(src["line"])
+    elif src["kind"] == "re":
         yield from re_events(c05.from_abs(src["re"]), {"kind": "re"})
     else:
         yield from dfa_events(src)
 
 
-MODELS = {"quick": [("GnfaRip", "GnfaRip_q.cfg", "all DFA(2,{a,b}) x all elimination orders, symbolic edge languages"), ("GnfaRip", "GnfaRip_t2.cfg", "all DFA(3,{a,b}) x all 6 elimination orders")],
+_TH = {"allow_untaken": True}
+MODELS = {"quick": [("GnfaRip", "GnfaRip_q.cfg", "all DFA(2,{a,b}) x all elimination orders, symbolic edge languages"), ("GnfaRip", "GnfaRip_t2.cfg", "all DFA(3,{a,b}) x all 6 elimination orders"),
+                    ("Thompson", "ThompsonM_q.cfg", "regexp_to_nfa as the code builds it (generator names, shared alphabet) on all "
+                     "trees with <= 2 operators: valid, same language, names never clash", _TH)],
           "thorough": [("GnfaRip", "GnfaRip_q.cfg", "all DFA(2,{a,b}) x all elimination orders"),
+                       ("Thompson", "ThompsonM_t.cfg", "regexp_to_nfa model on all trees with <= 3 operators", _TH),
                        ("GnfaRip", "GnfaRip_t.cfg", "all DFA(3,{a}) x all 6 elimination orders"), ("GnfaRip", "GnfaRip_t2.cfg", "all DFA(3,{a,b}) x all 6 elimination orders")]}
 RULE = ("regexp->NFA on all trees with <= 2 (3) operators over {0,1,a,b} and random trees up to 8 operators (alphabets "
         "incl. {0,1}); DFA->regexp on DFA(3,{a,b}) (strided in quick), DFA(2,{a,b,c}), random DFAs up to 5 states, under "
         "four state-naming schemes and several hash seeds (= elimination orders); equivalence decided exactly; for DFAs "
         "with <= 3 states the labels after dfa_to_gnfa, every ripped state (hook) and the final label are validated "
-        "as a behaviour of GnfaRip.tla (operator RipLabels, exact regexp trees); "
+        "as a behaviour of GnfaRip.tla (operator RipLabels, exact regexp trees); every (tree, automaton) pair of "
+        "Thompson.tla replayed into regexp_to_nfa and compared structurally; "
         "non-trivial = more than one operator / DFA with >= 2 states; distinct = distinct input")
 
 
 def nontrivial(e):
+    if e["op"] == "sched_replay":
+        return True
     if e["op"] == "re_to_nfa":
         return str(e["re"]).count("[") > 2
     return len(e["fa"]["Q"]) >= 2
@@ -154,7 +208,14 @@ def rip_orders(res, done):
 
 
 def check(tier, seed):
-    return base.standard_check(PID, tier, seed, tasks(tier, seed), MODELS[tier], RULE, nontrivial, extra=rip_orders,
+    info = {}
+    ts = tasks(tier, seed) + thompson_tasks(tier, info)
+
+    def extra(res, done):
+        rip_orders(res, done)
+        res.notes["model_behaviours_replayed_into_impl"] = info
+
+    return base.standard_check(PID, tier, seed, ts, MODELS[tier], RULE, nontrivial, extra=extra,
                                assumptions=["DFA state names other than 'start'/'accept' (the code asserts this)",
                                             "single-character symbols"])
 
